@@ -91,19 +91,20 @@ func applyOverrides(cfg *CheckConfig, ov map[string]interface{}) error {
 }
 
 type RunReport struct {
-	Name       string
-	Cfg        CheckConfig
-	Agg        *Aggregate
-	Wall       time.Duration
-	Violations []*Candidate
-	Known      map[string]int
-	Replayed   int
-	ReplayOK   int
-	Validated  int
-	ValidMism  []string
-	Vacuous    []string
-	Bounds     string
-	Skipped    bool
+	Name        string
+	Cfg         CheckConfig
+	Agg         *Aggregate
+	Wall        time.Duration
+	Violations  []*Candidate
+	NativeFound []*Candidate
+	Known       map[string]int
+	Replayed    int
+	ReplayOK    int
+	Validated   int
+	ValidMism   []string
+	Vacuous     []string
+	Bounds      string
+	Skipped     bool
 }
 
 func cmdCheck(args []string) int {
@@ -293,6 +294,23 @@ func cmdCheck(args []string) int {
 					}
 				}
 				exit = 2
+			}
+			// violations witnessed only natively (during translator validation)
+			seenNative := map[string]bool{}
+			for _, c := range rep.NativeFound {
+				if seenNative[c.Key()] {
+					continue
+				}
+				seenNative[c.Key()] = true
+				isKnown := false
+				for ki := range known {
+					if known[ki].matches(c) {
+						isKnown = true
+					}
+				}
+				if !isKnown {
+					rep.Violations = append(rep.Violations, c)
+				}
 			}
 			for _, c := range rep.Violations {
 				path := writeReplayFile(*verif, c)
